@@ -252,14 +252,17 @@ impl Ignore {
 
     /// Like add_child, but takes a full path and returns an IgnoreInner.
     fn add_child_path(&self, dir: &Path) -> (IgnoreInner, Option<Error>) {
-        let git_type = if self.0.opts.require_git
-            && (self.0.opts.git_ignore || self.0.opts.git_exclude)
+        // Whether a repository is required or not, finding info/exclude
+        // takes knowing whether `.git` is a directory or a file pointing
+        // to one.
+        let git_type = if (self.0.opts.require_git && self.0.opts.git_ignore)
+            || self.0.opts.git_exclude
         {
             dir.join(".git").metadata().ok().map(|md| md.file_type())
         } else {
             None
         };
-        let has_git = git_type.map(|_| true).unwrap_or(false);
+        let has_git = self.0.opts.require_git && git_type.is_some();
 
         let mut errs = PartialErrorBuilder::default();
         let custom_ig_matcher = if self.0.custom_ignore_filenames.is_empty() {
